@@ -683,7 +683,18 @@ func c02compensatedCase(c *vf.Ctx, i int) {
 		for k := 0; k < 6; k++ {
 			j := r.Intn(len(sym))
 			foreign := "bio1BIO"[r.Intn(7)]
-			for _, w := range []byte{255, 0, 31, foreign & 31, byte(r.Intn(256))} {
+			if r.Bool() {
+				// any other ASCII byte outside the alphabet (control characters,
+				// punctuation, space, DEL), as one wrong entry of a decoding table
+				// would admit it
+				for {
+					foreign = byte(r.Intn(128))
+					if foreign != ':' && !strings.ContainsRune(ref.CashCharset, rune(foreign|0x20)) && !strings.ContainsRune(ref.CashCharset, rune(foreign)) {
+						break
+					}
+				}
+			}
+			for _, w := range []byte{255, 254, 253, 0, 1, 31, foreign & 31, foreign, byte(r.Intn(256))} {
 				mod := append([]byte{}, sym...)
 				mod[j] = w
 				ck := ref.CashChecksum(prefix, mod)
